@@ -51,8 +51,8 @@ theorem head_pc_and {α : Type} {m : M α} {s : State} {Q1 Q2 : α → State →
 
 theorem head_tr_withMode {s s' : State} {calls : List Call} {R : Aux → Aux → Prop} (h : Tr s s' calls R) (m : Mode) :
     Tr s { s' with mode := m } calls R := by
-  obtain ⟨hm, hc, he, ids, f⟩ := h
-  refine ⟨hm.withMode m, hc, he, ids, fun x rest hx hs => ?_⟩
+  obtain ⟨hm, hc, he, ids, hfi, f⟩ := h
+  refine ⟨hm.withMode m, hc, he, ids, hfi, fun x rest hx hs => ?_⟩
   obtain ⟨x', l, r⟩ := f x rest hx hs
   exact ⟨x', ⟨l.aux.withMode m, l.supply, l.switch, l.script, l.outs, l.log⟩, r⟩
 
